@@ -19,7 +19,7 @@
 (*        highest_init_level, namespace near misses                        *)
 (*   PkgRec                             FindModuleCache.find_modules_recursive *)
 (*        with main.process_options' SearchPaths((cwd,), mypy_path, ..)    *)
-(*   Seed / Resolve                     build.load_graph: the graph is     *)
+(*   Distinct / Resolve                 build.load_graph: the graph is     *)
 (*        seeded with the command-line sources ("Duplicate module named"), *)
 (*        every other id is looked up with find_module                     *)
 (*                                                                         *)
@@ -230,7 +230,6 @@ PkgRec(W, fm, id) ==
 ----------------------------------------------------------------------------
 (* build.load_graph: seeding and resolution *)
 
-Mods(S) == {S[i].mod : i \in DOMAIN S}
 Distinct(S) == \A i, j \in DOMAIN S : S[i].mod = S[j].mod => i = j      \* else "Duplicate module named"
 AsSet(S) == {[mod |-> S[i].mod, path |-> S[i].path] : i \in DOMAIN S}
 
@@ -251,7 +250,13 @@ Probes(W, rootset) ==
 ----------------------------------------------------------------------------
 (* the observation of one world: listings, resolution maps, verdicts *)
 
-Perms(n) == Permutations(1..n)
+(* the orders of n base directories that are examined: all of them up to 4 (24 orders); beyond *)
+(* that the 2n rotations of the listing order and of its reverse (every pair of base           *)
+(* directories still occurs in both relative orders)                                           *)
+Perms(n) ==
+  IF n <= 4 THEN Permutations(1..n)
+  ELSE {[i \in 1..n |-> ((i + k - 1) % n) + 1] : k \in 0..(n - 1)}
+       \cup {[i \in 1..n |-> n - ((i + k - 1) % n)] : k \in 0..(n - 1)}
 
 NoNestedBase(W) == \A b \in ExplicitBases(W) : ~StrictlyBelow(b, W.c.tgt)
 
